@@ -17,12 +17,15 @@ class Unmodelled(Exception):
 def _leaf_classes():
     from spyne.model.primitive import (Integer, Integer32, UnsignedInteger8, Unicode, Boolean, DateTime, Date, Time,
                                        Duration, Decimal, Double, Uuid, AnyDict, AnyXml)
-    from spyne.model.binary import ByteArray
+    from spyne.model.binary import ByteArray, File, BINARY_ENCODING_URLSAFE_BASE64, BINARY_ENCODING_HEX
     return {'int': Integer, 'text': Unicode, 'bool': Boolean, 'datetime': DateTime, 'date': Date, 'time': Time,
             'duration': Duration, 'bytes': ByteArray,
             # outside the modelled universe (the direct oracle's service only)
             'int32': Integer32, 'u8': UnsignedInteger8, 'decimal': Decimal, 'double': Double, 'uuid': Uuid,
             'text10': Unicode(max_len=10), 'pattern': Unicode(pattern='[a-z]+'), 'hex': ByteArray(encoding='hex'),
+            'urlsafe': ByteArray(encoding='urlsafe_base64'), 'b64': ByteArray(encoding='base64'),
+            'file': File, 'fileurl': File.customize(encoding=BINARY_ENCODING_URLSAFE_BASE64),
+            'filehex': File.customize(encoding=BINARY_ENCODING_HEX),
             'anydict': AnyDict, 'anyxml': AnyXml}
 
 
@@ -36,7 +39,8 @@ MODEL_DESC = {
         ('Outer', [('i', ('leaf', 'int'), {}, 'elem'), ('b', ('leaf', 'bool'), {}, 'elem'),
                    ('dt', ('leaf', 'datetime'), {}, 'elem'), ('da', ('leaf', 'date'), {}, 'elem'),
                    ('t', ('leaf', 'time'), {}, 'elem'), ('du', ('leaf', 'duration'), {}, 'elem'),
-                   ('ba', ('leaf', 'bytes'), {}, 'elem'), ('e', ('enum',), {}, 'elem'),
+                   ('ba', ('leaf', 'bytes'), {}, 'elem'), ('bu', ('leaf', 'urlsafe'), {}, 'elem'),
+                   ('bh', ('leaf', 'hex'), {}, 'elem'), ('b6', ('leaf', 'b64'), {}, 'elem'), ('e', ('enum',), {}, 'elem'),
                    ('s', ('leaf', 'text'), {}, 'elem'), ('inner', ('ref', 'Inner'), {}, 'elem'),
                    ('arr', ('arr', ('leaf', 'int')), {}, 'elem'),
                    ('multi', ('leaf', 'int'), {'max_occurs': 3}, 'elem'),
@@ -51,10 +55,11 @@ MODEL_DESC = {
         ('g', [('i', ('leaf', 'int')), ('s', ('leaf', 'text')), ('dt', ('leaf', 'datetime'))]),
         ('h', []),
         ('k', [('l', ('arr', ('leaf', 'text'))), ('e', ('enum',))]),
+        ('bin', [('ba', ('leaf', 'bytes')), ('bu', ('leaf', 'urlsafe')), ('bh', ('leaf', 'hex'))]),
     ],
     # bare methods: the in_message is the argument type itself
     'bare': [('bi', ('leaf', 'int')), ('bd', ('leaf', 'datetime')), ('bt', ('leaf', 'text')), ('ba', ('arr', ('leaf', 'int'))),
-             ('bc', ('ref', 'Inner'))],
+             ('bc', ('ref', 'Inner')), ('bbu', ('leaf', 'urlsafe'))],
 }
 
 
@@ -67,6 +72,8 @@ RICH_DESC = {
                    ('dt', ('leaf', 'datetime'), {}, 'elem'), ('da', ('leaf', 'date'), {}, 'elem'),
                    ('t', ('leaf', 'time'), {}, 'elem'), ('du', ('leaf', 'duration'), {}, 'elem'),
                    ('u', ('leaf', 'uuid'), {}, 'elem'), ('ba', ('leaf', 'bytes'), {}, 'elem'),
+                   ('bu', ('leaf', 'urlsafe'), {}, 'elem'), ('b6', ('leaf', 'b64'), {}, 'elem'),
+                   ('fi', ('leaf', 'file'), {}, 'elem'),
                    ('inner', ('ref', 'Inner'), {}, 'elem'), ('arr', ('arr', ('leaf', 'int')), {}, 'elem'),
                    ('multi', ('leaf', 'int'), {'max_occurs': 3}, 'elem'), ('e', ('enum',), {}, 'elem'),
                    ('s', ('leaf', 'text10'), {}, 'elem'), ('at', ('leaf', 'int'), {}, 'attr'),
@@ -80,10 +87,14 @@ RICH_DESC = {
         ('g', [('i', ('leaf', 'int')), ('s', ('leaf', 'text')), ('dt', ('leaf', 'datetime'))]),
         ('h', []),
         ('k', [('d', ('leaf', 'anydict')), ('x', ('leaf', 'anyxml')), ('l', ('arr', ('leaf', 'text')))]),
+        # binary parameters in every encoding; over HttpRpc the default encoding is url-safe base64
+        ('bin', [('ba', ('leaf', 'bytes')), ('bu', ('leaf', 'urlsafe')), ('bh', ('leaf', 'hex')), ('b6', ('leaf', 'b64')),
+                 ('fi', ('leaf', 'file')), ('fu', ('leaf', 'fileurl')), ('fh', ('leaf', 'filehex')), ('mb', ('arr', ('leaf', 'bytes')))]),
     ],
     'bare': [('bi', ('leaf', 'int32')), ('bd', ('leaf', 'datetime')), ('bdu', ('leaf', 'duration')), ('bt', ('leaf', 'text10')),
              ('bdec', ('leaf', 'decimal')), ('be', ('enum',)), ('ba', ('arr', ('leaf', 'int'))), ('bc', ('ref', 'Inner')),
-             ('bany', ('leaf', 'anydict'))],
+             ('bany', ('leaf', 'anydict')), ('bba', ('leaf', 'bytes')), ('bbu', ('leaf', 'urlsafe')), ('bbh', ('leaf', 'hex')),
+             ('bfi', ('leaf', 'file'))],
 }
 
 
@@ -217,9 +228,12 @@ class AppTerm(object):
         if issubclass(cls, Duration):
             return 'LDur'
         if issubclass(cls, ByteArray):
-            if A.encoding is not BINARY_ENCODING_USE_DEFAULT:
-                raise Unmodelled('ByteArray encoding')
-            return 'LBytes'
+            from spyne.model.binary import BINARY_ENCODING_BASE64, BINARY_ENCODING_URLSAFE_BASE64, BINARY_ENCODING_HEX
+            enc = {BINARY_ENCODING_USE_DEFAULT: 'BDefault', BINARY_ENCODING_BASE64: 'BBase64',
+                   BINARY_ENCODING_URLSAFE_BASE64: 'BUrl', BINARY_ENCODING_HEX: 'BHex'}.get(A.encoding)
+            if enc is None:
+                raise Unmodelled('ByteArray encoding %r' % (A.encoding,))
+            return '(LBytes %s)' % enc
         if issubclass(cls, Unicode):
             same(Unicode, ('min_len', 'max_len', 'pattern', 'unicode_pattern', 'encoding', 'unicode_errors'))
             if cls.validate_string is not Unicode.validate_string:
